@@ -77,6 +77,8 @@ pub static EXECUTIONS: AtomicU64 = AtomicU64::new(0);
 pub static EXCLUDED_KNOWN: AtomicU64 = AtomicU64::new(0);
 /// executions in which more than the 128 MiB log-queue limit was logged but not applied (C15)
 pub static LOGQ_OVER_LIMIT: AtomicU64 = AtomicU64::new(0);
+/// executions in which 16 or more applied log files were seen waiting (C15, sync_data = false)
+pub static KEPT_LOGS_AT_LIMIT: AtomicU64 = AtomicU64::new(0);
 pub static DIR_COUNTER: AtomicU64 = AtomicU64::new(0);
 
 pub fn violation(sig: &str, detail: String) -> ! {
